@@ -10,9 +10,9 @@ FAM_TY = {"none": "int", "seq": "List[int]", "map": "Dict[str, int]", "set": "Se
 HEADER = "from typing import Any, Dict, List, Set\nfrom spec_classes import Attr, spec_class\n"
 
 
-def opts(init=True, repr=True, eq=True, attrs=(), typed=(), skip=(), useskip=False, key=""):
+def opts(init=True, repr=True, eq=True, attrs=(), typed=(), skip=(), useskip=False, key="", overflow=""):
     return {"init": init, "repr": repr, "eq": eq, "attrs": list(attrs), "typed": [{"n": n, "fam": f} for n, f in typed], "skip": list(skip), "useskip": useskip,
-            "key": key}          # key: the decorator's key= (naming a key does not make the attribute a managed one)
+            "key": key, "overflow": overflow}          # overflow: init_overflow_attr; key: the decorator's key= (naming a key does not make the attribute a managed one)
 
 
 def base(annots, body=(), o=None, inh=(), parent_src=""):
@@ -47,6 +47,8 @@ BASES = {
     "key_not_in_attrs": base([("k", "none"), ("x", "none")], body=["k", "x"], o=opts(attrs=["x"], key="k")),
     "key_private": base([("_id", "none"), ("x", "none")], body=["_id", "x"], o=opts(key="_id")),
     "key_managed": base([("k", "none"), ("x", "none")], body=["k", "x"], o=opts(key="k")),
+    "overflow_public": base([("x", "none")], body=["x"], o=opts(overflow="extra")),
+    "overflow_private": base([("x", "none")], body=["x"], o=opts(overflow="_cache")),
     "inherits": base([("y", "none")], body=["y"], inh=[("x", "none"), ("zs", "seq")],
                      parent_src="@spec_class\nclass Parent:\n    x: int = 0\n    zs: List[int] = []\n"),
     "private_in_attrs": base([("x", "none")], body=["x"], o=opts(attrs=["_secret"])),
@@ -57,7 +59,8 @@ FALSY = {"none": "None", "zero": "0", "empty": "()"}
 
 def description(name):
     b = BASES[name]
-    names = [a["n"] for a in b["annots"]] + b["opts"]["attrs"] + [t["n"] for t in b["opts"]["typed"]] + [a["n"] for a in b["inh"]] + b["opts"]["skip"]
+    names = [a["n"] for a in b["annots"]] + b["opts"]["attrs"] + [t["n"] for t in b["opts"]["typed"]] + [a["n"] for a in b["inh"]] + b["opts"]["skip"] \
+        + ([b["opts"]["overflow"]] if b["opts"].get("overflow") else [])
     d = {k: b[k] for k in ("annots", "body", "opts", "inh")}
     d["priv"] = {n: n.startswith("_") for n in names} or {"_": True}
     d["sing"] = {n: get_singular_form(n) for n in names}
@@ -125,6 +128,8 @@ def decorator_args(o, eager):
         args["attrs_skip"] = list(o["skip"])
     if o.get("key"):
         args["key"] = o["key"]
+    if o.get("overflow"):
+        args["init_overflow_attr"] = o["overflow"]
     if eager:
         args["bootstrap"] = True
     return args
